@@ -1,8 +1,13 @@
-(** C04 — the evaluator as it was BEFORE the repairs ([*_nofix], transcribed arm by arm from the tree at
-    e96cdbf1), and the witnesses showing that it violated the property.  Each [*_refuted] lemma is a concrete
-    input, evaluated by [vm_compute]; the same inputs are in corpus/C04/ and were replayed on the implementation
-    (debug and release harness builds) before the repairs were committed.  Kept so that the regression is
-    documented; nothing in Props_C04.v depends on this file. *)
+(** C04 — the evaluator as it was BEFORE the repairs ([*_nofix], transcribed arm by arm from /repo at e96cdbf1),
+    and the witnesses showing that it violated the property.  Each [*_refuted] / [*_panics] lemma is a concrete
+    input evaluated by [vm_compute]; the same inputs are in corpus/C04/.  Before the repairs were committed the
+    [_nofix] model was run against that tree (check with C04_NOFIX=1: 2981 generated cases under a debug and a
+    release harness build, 0 differences between model and implementation, 724 verdicts "violates" from the judge).
+    Repairs in /repo: 8fda608f (+ typo), 78dd990a (exact integer + - * ** and unary -), f4bd88bc (zero divisors),
+    8a9db201 (floor // %), 98d4a695 (Int/Nat comparison), efce320d (Nat/Float comparison), a8bdbefe (float // %),
+    b15c7007 (~Bool), 6ec6dcd4 (int / int double rounding).  Model.v is the model of the repaired code;
+    [repaired_on_witnesses] at the end shows its answers on the same inputs.
+    Kept so that the regression is documented; nothing in Props_C04.v depends on this file. *)
 From Coq Require Import ZArith List Bool.
 From Coq Require Import Floats.SpecFloat.
 From ErgV Require Import ConstEval.Model ConstEval.Spec.
